@@ -682,10 +682,12 @@ impl NodeRecordStore {
             }
         }
 
+        // A record refused for lack of space must not enter the cache: it would be served by `get`
+        // and a retry of the same put would be reported as already stored.
+        self.prune_records_if_needed(key)?;
+
         // Store the new record to the cache
         self.records_cache.push_back(key.clone(), r.clone());
-
-        self.prune_records_if_needed(key)?;
 
         let filename = Self::generate_filename(key);
         let file_path = self.config.storage_dir.join(&filename);
